@@ -5,7 +5,32 @@ SPEC = dict(
     driver="C03",
     harness="c03.cpp",
     theorems=[
+        "SymVerif.C03.addE_inv", "SymVerif.C03.addE_canon", "SymVerif.C03.addN_inv", "SymVerif.C03.addN_canon",
+        "SymVerif.C03.api_canon_add",
+        "SymVerif.C03.spec_all",
+        "SymVerif.C03.mulEO_inv_partial", "SymVerif.C03.negEO_inv_partial", "SymVerif.C03.subEO_inv_partial",
+        "SymVerif.C03.powEO_inv_partial", "SymVerif.C03.divEO_inv_partial", "SymVerif.C03.sqrtEO_inv_partial",
+        "SymVerif.C03.cbrtEO_inv_partial", "SymVerif.C03.mulNO_inv_partial",
+        "SymVerif.C03.api_canon_partial", "SymVerif.C03.C03_full_of_obligations",
+        "SymVerif.Arith.key_inj", "SymVerif.Arith.inv_canon", "SymVerif.Arith.mulFromDict_inv",
+        "SymVerif.Arith.addFromDict_inv", "SymVerif.Arith.addDictAddTerm_ok", "SymVerif.Arith.addMergeLoop_ok",
+        "SymVerif.Arith.coefDictAddTerm_ok", "SymVerif.Arith.addCore_inv",
+        "SymVerif.Arith.step_mulF", "SymVerif.Arith.step_datNew", "SymVerif.Arith.step_datFound",
+        "SymVerif.Arith.step_powerNum", "SymVerif.Arith.step_powerNumLoop", "SymVerif.Arith.step_rpowrat",
+        "SymVerif.Arith.step_powF", "SymVerif.Arith.step_powGeneric",
     ],
+    partial=["mulEO/negEO/subEO/powEO/divEO/sqrtEO/cbrtEO/mulNO_inv_partial, api_canon_partial: relative to the two "
+             "model-level hypotheses RadShape (Number**Rational evaluates to a Number, Mul or Pow) and PowerExpOK "
+             "(the exponent v*n that power_num passes on is non-zero and legal for its base); the unconditional "
+             "statement is `def C03_full`, `C03_full_of_obligations` reduces it to the two hypotheses",
+             "noBadCast is not a separate theorem: every theorem has the form `f … = .ok r → inv r`"],
+    level_note="Add side (add, add(vec), Add::from_dict, dict_add_term, coef_dict_add_term, as_coef_term) proved "
+               "unconditionally; Mul/Pow side: induction step of all 15 mutually recursive functions proved, "
+               "assembled relative to two explicit hypotheses about the model (see partial). The invariant "
+               "proved is inv = canon && strong: the library's is_canonical plus the per-factor clauses that make "
+               "it inductive (the library's own invariant is not inductive, witness in Props/C03.lean).",
+    technique="executable Lean model of add.cpp/mul.cpp/pow.cpp/rational.cpp mirrored branch by branch; "
+              "correspondence on tree dumps; invariants by induction on recursion fuel",
     rule="one op = one call of add/sub/mul/div/pow/neg/sqrt/cbrt/add(vec)/mul(vec) on operands that the "
          "generator built bottom-up through the real API (depth <= 4 quick, <= 6 thorough) from integers (small, "
          "2^64, 10^20, 2^128), rationals, Gaussian rationals, x y z, pi E EulerGamma, numeric radicals "
